@@ -37,7 +37,7 @@ def required_cells(tier):
     return ['pair:wild:match', 'pair:wild:nomatch', 'pair:plain:match', 'pair:plain:nomatch',
             'public:+ELLIPSIS', 'public:-ELLIPSIS', 'derived:positive', 'derived:edited', 'derived:dotted',
             'wildcards:1', 'wildcards:2', 'wildcards:3', 'derived-wildcards:1-4', 'derived-wildcards:5-8',
-            'derived-wildcards:9-12', 'derived-wildcards:13+']
+            'derived-wildcards:9-12', 'derived-wildcards:13+', 'public:ELLIPSIS-switched-between-calls']
 
 
 TOKENS = ['a', 'b', ' ', '\n', '...']
@@ -90,6 +90,24 @@ def check_pair_public(ctx, check_output, on, off, got, want):
                           'check_output(%r, %r, ELLIPSIS=%s) -> %r, reference %r' % (got, want, ell, obs, exp),
                           {'kind': 'public', 'got': got, 'want': want}, observed=obs, expected=exp, ellipsis=ell)
         ctx.cell('public:%sELLIPSIS' % ('+' if ell else '-'))
+    if want and got != want and (len(got) + len(want)) % 3 == 0:
+        # one state object whose ELLIPSIS flag is switched between two calls on the same texts (what an -ELLIPSIS directive
+        # does in the middle of a doctest): the flag as it is at the time of the call decides
+        sw = getattr(check_pair_public, 'switched', None)
+        if sw is None:
+            from xdoctest import directive
+            sw = check_pair_public.switched = directive.RuntimeState()
+            for f in models.FLAGS:
+                sw[f] = False
+        for ell in ((True, False) if len(got) % 2 else (False, True)):
+            sw['ELLIPSIS'] = ell
+            exp = models.match(g, w, ell)
+            obs = bool(check_output(got, want, sw))
+            if obs != exp:
+                ctx.violation('ellipsis-public', 'check_output(%r, %r) with ELLIPSIS switched to %s on a state object used for '
+                              'the other setting just before -> %r, reference %r' % (got, want, ell, obs, exp),
+                              {'kind': 'public', 'got': got, 'want': want}, observed=obs, expected=exp, ellipsis=ell)
+        ctx.cell('public:ELLIPSIS-switched-between-calls')
 
 
 def run_shard(ctx):
